@@ -496,6 +496,12 @@ int reproc_read(reproc_t *process,
     }
   }
 
+  if (size == 0) {
+    // A zero-sized `read` returns 0 which is indistinguishable from the stream
+    // being closed.
+    return 0;
+  }
+
   r = pipe_read(*pipe, buffer, size);
 
   if (r == REPROC_EPIPE) {
